@@ -76,6 +76,11 @@ pub const SPECIAL: &[&str] = &[
     "TRIGger:stop?",
     "*idn?",
     "*opc?",
+    // non-ASCII letters whose Unicode upper-case mapping is plain ASCII (sharp s -> SS, the
+    // ligature fi -> FI, long s -> S): no header equals them "ignoring ASCII case"
+    "ma\u{df}?",
+    "MEASure:\u{fb01}le?",
+    "\u{17f}et",
     // longer than the 12 characters SCPI recommends for a mnemonic
     "TemperatureCompensation:A",
     "CALibration:TemperatureCompensation?",
@@ -153,6 +158,7 @@ fn set_facts(texts: &[&str], decls: &[Decl]) -> Vec<(&'static str, String)> {
 
 #[derive(Default)]
 pub struct DirectStats {
+    pub unspecified: u64,
     pub sets: u64,
     pub accepted: u64,
     pub rejected: u64,
@@ -164,8 +170,17 @@ pub struct DirectStats {
 /// Violations are added to `g` with feature `property` = C01 (trie differs)
 /// or C14 (accept / reject differs).
 pub fn check_set_direct(texts: &[&str], g: &mut Groups, st: &mut DirectStats) {
-    st.sets += 1;
     let decls: Vec<Decl> = texts.iter().map(|t| header::parse_decl(t)).collect();
+    // a declaration that no header can reach at all, written twice: neither "reachable by the
+    // same header spelling" nor an ordinary collision-free set - the property is silent
+    // (DESIGN.md 8.1, round 6: unspellable long forms), so such sets carry no expectation
+    for i in 1..texts.len() {
+        if texts[..i].contains(&texts[i]) && reachable_paths(&decls[i]).is_empty() {
+            st.unspecified += 1;
+            return;
+        }
+    }
+    st.sets += 1;
     let real = build(texts);
     let coll = spec_collision(&decls);
     let key_bytes = texts.join(" | ").into_bytes();
@@ -299,6 +314,9 @@ pub fn near_miss_pool(decls: &[Decl]) -> Vec<String> {
             set.insert(short.clone());
             set.insert(long.to_ascii_uppercase());
             set.insert(long.to_ascii_lowercase());
+            // what the Unicode (not ASCII) case mappings make of the declared spelling
+            set.insert(long.to_uppercase());
+            set.insert(long.to_lowercase());
             // mixed case
             set.insert(long.chars().enumerate().map(|(i, c)| if i % 2 == 0 { c.to_ascii_lowercase() } else { c.to_ascii_uppercase() }).collect());
             // prefixes of the long form from one letter less than the short form on
